@@ -9,6 +9,8 @@ From LokyV Require Model.FeederPipe Proofs.FeederPipeThm.
 From LokyV Require Model.ForcedPop Proofs.ForcedPopThm.
 From LokyV Require Lib.KillTreeLib Gen.KillTree Model.KillTree Proofs.KillTreeThm.
 From Coq Require Import Permutation.
+From LokyV Require Model.GlobalJoin Proofs.GlobalJoinThm.
+Module GJ := LokyV.Model.GlobalJoin.
 Module KT := LokyV.Model.KillTree.
 Module KG := LokyV.Gen.KillTree.
 Import ListNotations.
@@ -198,3 +200,41 @@ Print Assumptions C06_fork_during_the_sweep_escapes_refuted.
 Theorem C06_kill_tree_structure : KG.kill_workers_kills_whole_trees = true.
 Proof. reflexivity. Qed.
 Print Assumptions C06_kill_tree_structure.
+
+(* ---- "completes in time independent of how long the running tasks would take" when ANOTHER executor is being shut down gracefully
+   at the same time (Model/GlobalJoin.v): shutdown(wait=True) joins its manager thread while holding the module-wide
+   _global_shutdown_lock (generated fact) ---- *)
+Theorem C06_join_is_under_the_global_lock : shutdown_joins_the_manager_under_the_global_lock = true.
+Proof. reflexivity. Qed.
+Print Assumptions C06_join_is_under_the_global_lock.
+
+(* the effect of the forced call (executor 2's manager has ended: futures failed, workers killed) needs no tick of anybody's task ... *)
+Theorem C06_forced_effect_is_prompt_beside_another_shutdown :
+  forall n, let s := GJ.grun shutdown_joins_the_manager_under_the_global_lock [GJ.C2Flag; GJ.M2End] (GlobalJoinThm.held n) in
+    GJ.m2_done s = true /\ GJ.ticks s = 0.
+Proof. intros n. rewrite C06_join_is_under_the_global_lock. split; reflexivity. Qed.
+Print Assumptions C06_forced_effect_is_prompt_beside_another_shutdown.
+
+(* ... but the CALL returns only after the other executor's task has run to its end: for every history *)
+Theorem C06_forced_call_waits_for_the_other_executors_task :
+  forall n es, let s := GJ.grun shutdown_joins_the_manager_under_the_global_lock es (GlobalJoinThm.held n) in
+    GJ.c2 s = GJ.CDone -> n <= GJ.ticks s.
+Proof.
+  intros n es. rewrite C06_join_is_under_the_global_lock. intros s H.
+  apply (GlobalJoinThm.forced_call_waits_for_the_other_executors_task n es). right. exact H.
+Qed.
+Print Assumptions C06_forced_call_waits_for_the_other_executors_task.
+
+(* so the full statement is false (finding H22): for every n the forced call is still waiting after n ticks *)
+Theorem C06_forced_call_promptness_refuted :
+  forall n, exists es, let s := GJ.grun shutdown_joins_the_manager_under_the_global_lock es (GlobalJoinThm.held (S n)) in
+    GJ.ticks s = n /\ GJ.m2_done s = true /\ GJ.c2 s = GJ.CFlagged /\ GJ.gstep true s GJ.C2Acquire = s.
+Proof. intros n. rewrite C06_join_is_under_the_global_lock. apply GlobalJoinThm.forced_call_promptness_refuted. Qed.
+Print Assumptions C06_forced_call_promptness_refuted.
+
+(* joined without the lock, the call would return after its own three steps *)
+Theorem C06_without_the_lock_the_forced_call_is_prompt :
+  forall s0, GJ.c2 s0 = GJ.CStart ->
+    let s := GJ.grun false [GJ.C2Flag; GJ.M2End; GJ.C2Acquire; GJ.C2JoinRelease] s0 in GJ.c2 s = GJ.CDone /\ GJ.ticks s = GJ.ticks s0.
+Proof. exact GlobalJoinThm.without_the_lock_the_forced_call_is_prompt. Qed.
+Print Assumptions C06_without_the_lock_the_forced_call_is_prompt.
